@@ -49,9 +49,13 @@ void harness(void)
 	env_mkfile("f", filebuf, n, 5);
 	lbuf_edit(xb, filebuf, 0, lbuf_len(xb));	/* as if this content had been loaded */
 	lbuf_saved(xb, 1);
-	/* make the buffer differ from the file */
-	exh_input("new\n.\n");
-	exh_cmd("$a");
+	/* make the buffer differ from the file: one line more, or (the file is then longer than what is written) one line less */
+	if (symx_conc(symx_u8("shrink") & 1) && lbuf_len(xb) >= 2) {
+		exh_cmd("1d");
+	} else {
+		exh_input("new\n.\n");
+		exh_cmd("$a");
+	}
 	text = exh_text();
 	c = symx_u8("cmd");
 	symx_assume(c < NCMDS);
